@@ -494,8 +494,11 @@ var currentCase atomic.Value
 func faultCase(r *rand.Rand, o *hout.Out, idx int) {
 	buf := []int{0, 1, 10}[r.Intn(3)]
 	role := r.Intn(2) // 0 initiator, 1 acceptor
-	causes := []string{"peer-close", "handler-stop", "local-close", "write-timeout", "bad-message", "write-stall-mid-message"}
+	causes := []string{"peer-close", "handler-stop", "local-close", "write-timeout", "bad-message", "write-stall-mid-message", "stop-before-run"}
 	cause := causes[r.Intn(len(causes))]
+	if idx < 2*len(causes) { // every (role, cause) pair at least once in every run, however short
+		cause, role = causes[idx%len(causes)], (idx/len(causes))%2
+	}
 	flood := r.Intn(3) > 0
 	sendOut := r.Intn(2) == 0
 	currentCase.Store(fmt.Sprintf("role=%s cause=%s buffer=%d flood=%v outbound=%v", []string{"initiator", "acceptor"}[role], cause, buf, flood, sendOut))
@@ -517,6 +520,11 @@ func faultCase(r *rand.Rand, o *hout.Out, idx int) {
 			time.Sleep(time.Duration(r.Intn(200)) * time.Microsecond) // a slow application: hand-offs pile up
 			return true
 		})
+		if cause == "stop-before-run" {
+			// the application turns the client away in its new-client callback (acceptor) / stops the handler before
+			// serving (initiator): the handler is stopped before Run has started
+			hh.Stop()
+		}
 	}
 	if role == 0 {
 		h = simplefixgo.NewInitiatorHandler(context.Background(), "35", buf)
@@ -632,6 +640,9 @@ func faultCase(r *rand.Rand, o *hout.Out, idx int) {
 		} else {
 			acc.Close()
 		}
+	case "stop-before-run":
+		// … and the peer hangs up while the library is winding the connection down
+		b.Close()
 	case "write-timeout", "write-stall-mid-message":
 		// nothing to do: the peer does not read (any more), the write deadline expires
 	case "bad-message":
